@@ -319,8 +319,10 @@ def execute(case: dict) -> dict:
                 e["obs"] = outcome(rl)
             elif a in ("Apply", "Clip"):
                 def ap():
-                    d = work / f"work{k}"
-                    d.mkdir()
+                    # (every second application re-uses one work directory: the caller manages it, and nothing says it must be
+                    # a new one each time - what an earlier clip left there must not leak into this one)
+                    d = work / (f"work{k}" if k % 2 else "work-shared")
+                    d.mkdir(exist_ok=True)
                     c = conv[e["obj"]]
                     if a == "Apply":
                         r = c.apply_clip_mask(state["mask"], d)
